@@ -9,6 +9,9 @@ inductive Tag where
   | soft       -- synthesised blank, delimiter or separator
   | comment    -- a line or block comment (or one line of it)
   | verbatim   -- whole-node source text
+  | prose      -- text copied from a markup `Text` leaf (a `tok` that also feeds the prose stream)
+  | lit        -- text copied from a literal leaf (a `tok` that also feeds the literal stream)
+  | plit       -- a literal that is also part of the prose: escape, link, label, reference target
 deriving DecidableEq, Repr, Inhabited
 
 inductive Doc where
